@@ -182,6 +182,67 @@ fn variable_kinds_and_noop_arithmetic() {
     println!("STATS {{\"fn\": \"variable kinds / no-op arithmetic\", \"cases\": {cases}}}");
 }
 
+// ---------------------------------------------------------------- array elements, \chardef names, \let of an active character
+/// two elements of the SAME array variable (\catcode`\! and \catcode`\?: one save-stack key each), a \chardef'd name, an active
+/// character redefined by \let - each locally and globally. Every history of <= 4 operations, of 5 starting with two groups.
+#[test]
+fn array_elements_and_definitions() {
+    std::panic::set_hook(Box::new(|_| {}));
+    #[derive(Clone, Copy, PartialEq, Debug)]
+    enum D { Begin, End, Cat1(bool, u8), Cat2(bool, u8), Chardef(bool, u8), LetTilde(bool, u8), DefTilde(bool, u8) }
+    let g = |b: bool| if b { "\\global" } else { "" };
+    let tex = |o: D| match o {
+        D::Begin => "{".to_string(), D::End => "}".to_string(),
+        D::Cat1(gl, v) => format!("{}\\catcode`\\!={v} ", g(gl)), D::Cat2(gl, v) => format!("{}\\catcode`\\?={v} ", g(gl)),
+        D::Chardef(gl, v) => format!("{}\\chardef\\c={v} ", g(gl)),
+        D::LetTilde(gl, v) => format!("{}\\let~=\\m{} ", g(gl), ['z', 'a', 'b', 'c', 'd', 'e', 'f', 'g', 'h'][v as usize]),
+        D::DefTilde(gl, v) => format!("{}\\def~{{{v}}}", g(gl)),
+    };
+    #[derive(Clone, PartialEq, Debug)]
+    struct S4 { c1: u8, c2: u8, ch: u8, t: u8 }
+    fn set4(cur: &mut S4, saved: &mut Vec<S4>, global: bool, f: impl Fn(&mut S4)) { f(cur); if global { for s in saved.iter_mut() { f(s); } } }
+    let apply4 = |cur: &mut S4, saved: &mut Vec<S4>, o: D| match o {
+        D::Begin => saved.push(cur.clone()),
+        D::End => { if let Some(s) = saved.pop() { *cur = s } }
+        D::Cat1(gl, v) => set4(cur, saved, gl, |s| s.c1 = v), D::Cat2(gl, v) => set4(cur, saved, gl, |s| s.c2 = v),
+        D::Chardef(gl, v) => set4(cur, saved, gl, |s| s.ch = v), D::LetTilde(gl, v) | D::DefTilde(gl, v) => set4(cur, saved, gl, |s| s.t = v),
+    };
+    let ops = [D::Begin, D::End, D::Cat1(false, 11), D::Cat1(true, 7), D::Cat2(false, 11), D::Cat2(true, 8), D::Chardef(false, 65), D::Chardef(true, 66),
+        D::LetTilde(false, 7), D::LetTilde(true, 8), D::DefTilde(false, 4)];
+    const READ4: &str = "[\\the\\catcode`\\!,\\the\\catcode`\\?,\\the\\c,~]";
+    let expect4 = |s: &S4| format!("[{},{},{},{}]", s.c1, s.c2, s.ch, s.t);
+    let n = ops.len();
+    let mut cases = 0u64;
+    for len in 1..=5usize {
+        let mut idx = vec![0usize; len];
+        'hist: loop {
+            let h: Vec<D> = idx.iter().map(|&i| ops[i]).collect();
+            let mut ok = !(len == 5 && !(h[0] == D::Begin && h[1] == D::Begin));
+            let mut depth = 0i32;
+            for op in &h { if *op == D::Begin { depth += 1 } if *op == D::End { depth -= 1; if depth < 0 { ok = false } } }
+            if ok {
+                let (mut cur, mut saved) = (S4 { c1: 12, c2: 12, ch: 64, t: 1 }, vec![]);
+                let mut src = String::from("\\catcode`\\~=13 \\def\\mg{7}\\def\\mh{8}\\catcode`\\!=12 \\catcode`\\?=12 \\chardef\\c=64 \\def~{1}");
+                let mut want = String::new();
+                for op in &h { apply4(&mut cur, &mut saved, *op); src.push_str(&tex(*op)); src.push_str(READ4); want.push_str(&expect4(&cur)); }
+                while !saved.is_empty() { apply4(&mut cur, &mut saved, D::End); src.push('}'); src.push_str(READ4); want.push_str(&expect4(&cur)); }
+                cases += 1;
+                let got = run(&src);
+                let good = matches!(&got, Some(Ok(out)) if out.split_whitespace().collect::<String>() == want);
+                if !good {
+                    let obs = match &got { None => "panic".to_string(), Some(Err(_)) => "error".to_string(), Some(Ok(o)) => o.split_whitespace().collect::<String>() };
+                    println!("WITNESS {{\"fn\": \"run\", \"unit_fns\": [\"update_save_stack\", \"set\", \"restore\", \"insert\", \"end_group\"], \"history\": \"{}\", \"observed\": \"{}\", \"expected\": \"{}\"}}",
+                        h.iter().map(|o| tex(*o)).collect::<String>().replace('\\', "\\\\").replace('"', "'"), obs.replace('"', "'").replace('\\', "/"), want);
+                    return;
+                }
+            }
+            let mut p = 0;
+            loop { if p == len { break 'hist; } idx[p] += 1; if idx[p] < n { break; } idx[p] = 0; p += 1; }
+        }
+    }
+    println!("STATS {{\"fn\": \"array elements / definitions\", \"cases\": {cases}}}");
+}
+
 // ---------------------------------------------------------------- the current font (its save stack is inlined in VM::run_impl)
 /// every history of <= 6 steps over { {, }, three local font selectors, one \global font selector, a global register
 /// assignment }: the font that is current when the input ends (after closing every open group) against the model
